@@ -462,17 +462,19 @@ func runC15(tier string, args []string) int {
 	// (d') one at a time: the schedule that needs the library's yield-point hook
 	{
 		frugal.VerifSetHook(frameHook)
+		installLogGate()
 		var ser []*caseSpec
 		rng := run.Rand("sched-serial")
 		for _, sc := range serialSchedules {
 			for i := 0; i < schedReps; i++ {
-				for _, p := range []policy{mkPolicy(false, 0, 0, rng), mkPolicy(true, 2, 1, rng)} {
+				for _, p := range []policy{mkPolicy(false, 0, 0, rng), mkPolicy(true, 2, 1, rng), mkPolicy(true, 3, 0, rng)} {
 					ser = append(ser, &caseSpec{Kind: "sched", Sched: sc, Pol: p})
 				}
 			}
 		}
 		h.runAll("schedules_serial", ser, 1)
 		frugal.VerifSetHook(nil)
+		rig.Quiet()
 	}
 
 	// (b) first: the dry runs also prove that the fault-free conversation holds
